@@ -100,6 +100,7 @@ class Engine:
         self.hooks_fired = set()
         self.cuts_fired = set()
         self.assumed_contracts = set()
+        self.used_contracts = set()
         self.lemmas_used = set()
 
     # ------------------------------------------------------------------
@@ -138,6 +139,22 @@ class Engine:
             fi._assigned = s
         return s
 
+    def infeasible(self, f):
+        from .solve import relevant_facts, _syms
+        from .vals import rnd_axioms
+        cache = {}
+        rel, cur = relevant_facts(ctx().facts, _syms(f, cache), cache, hops=2)
+        s = z3.Solver()
+        s.set("rlimit", 3000000)
+        s.set("timeout", 8000)
+        for x in rel:
+            s.add(x)
+        if "rnd" in cur:
+            for x in rnd_axioms():
+                s.add(x)
+        s.add(f)
+        return s.check() == z3.unsat
+
     def rel(self, clause):
         """Is this clause part of the property being checked?  (untagged clauses belong to every property)"""
         pid = getattr(self, "pid", None)
@@ -165,7 +182,15 @@ class Engine:
         p = path.split("@")[0].split("~!")[0]
         if p.endswith("!a"):
             p = p[:-2]
-        return ctx().types.get(p)
+        t = ctx().types.get(p)
+        if t is None and path.startswith("$"):
+            # a field read through an intermediate object that was havocked (versioned reference): the declared type of
+            # the original path still applies
+            org = getattr(ctx(), "origin", {})
+            for k, v in org.items():
+                if path.startswith(k) and len(path) > len(k) and path[len(k)] in ".[":
+                    return self.type_spec(v + path[len(k):])
+        return t
 
     def make_typed(self, name, path):
         spec = self.type_spec(path)
@@ -195,6 +220,13 @@ class Engine:
                 return v
             if spec.get("str"):
                 return Val(s=z3.Int(name))
+            if spec.get("obj"):
+                # object with declared (typed) fields: a fresh reference whose field paths carry the declared types
+                from .contracts import norm_path
+                ref = path if "!" not in name else "$" + name
+                for field, fspec in (spec.get("fields") or {}).items():
+                    c.types[norm_path("X." + field).replace("X.", ref + ".", 1)] = fspec
+                return Val(ref=ref, py=("instance", spec["obj"]))
         return None
 
     def spec_shape(self, s):
@@ -229,7 +261,8 @@ class Engine:
             return c.entry[name]
         v = self.make_typed(name, path)
         if v is None:
-            v = Val(poly=name, ref=path if ver == 0 else "$" + name)
+            # untyped intermediate object: addressed by its path (fields below it are versioned through version())
+            v = Val(poly=name, ref=path)
         elif v.ref is None and v.arr is None and v.num is None and v.boo is None:
             v.ref = path
         c.entry[name] = v
@@ -265,6 +298,8 @@ class Engine:
         if b is None:
             return a
         env = {}
+        vermis = []
+        merged_objs = []
         keys = list(a.env)
         for k in b.env:
             if k not in a.env:
@@ -273,6 +308,8 @@ class Engine:
             if k.startswith("#ver:"):
                 va, vb = a.env.get(k, 0), b.env.get(k, 0)
                 env[k] = va if va == vb else next(ctx().counter) + 1
+                if va != vb:
+                    vermis.append(k[5:])
                 continue
             va = a.env.get(k)
             vb = b.env.get(k)
@@ -285,6 +322,26 @@ class Engine:
                 if vb is None:
                     vb = self.lookup(b, k)
             env[k] = val_ite(c, va, vb)
+            mr = getattr(env[k], "merged_refs", None)
+            if mr is not None:
+                merged_objs.append((env[k].ref, mr[0], mr[1]))
+        # two different objects merged into one reference: its declared (typed) fields are the per-branch fields
+        for mref, ra, rb in merged_objs:
+            sufs = {}
+            for tp, tsp in list(ctx().types.items()):
+                for rr in (ra, rb):
+                    if tp.startswith(rr) and len(tp) > len(rr) and tp[len(rr)] in ".[" and "@" not in tp and "~" not in tp:
+                        sufs.setdefault(tp[len(rr):], tsp)
+            for suf, tsp in sufs.items():
+                ctx().types.setdefault(mref + suf, tsp)
+                env[mref + suf] = val_ite(c, self.lookup(a, ra + suf), self.lookup(b, rb + suf))
+        # fields below a prefix havocked on one side only: the declared (typed) fields keep their per-branch values
+        for pre in vermis:
+            for tp in list(ctx().types):
+                if tp.startswith(pre) and len(tp) > len(pre) and tp[len(pre)] in ".[" and "@" not in tp and "~" not in tp and tp not in env:
+                    if "const" in ctx().types[tp]:
+                        continue
+                    env[tp] = val_ite(c, self.lookup(a, tp), self.lookup(b, tp))
         return State(z3.simplify(z3.Or(a.pc, b.pc)), env)
 
     def merge_many(self, items):
@@ -387,7 +444,11 @@ class Engine:
                         if kind in ("local", "heap"):
                             st.env[key] = Val.fresh("opq")
                     else:
-                        self.assign(t, Val.fresh("opq"), st)
+                        tv = None
+                        if isinstance(t, ast.Name) and self.type_spec(t.id) is not None:
+                            # declared shape/sort of the opaque value (an assumption listed with the opaque site)
+                            tv = self.make_typed(ctx().fresh(t.id), t.id)
+                        self.assign(t, tv if tv is not None else Val.fresh("opq"), st)
                 return st
         m = getattr(self, "st_" + type(s).__name__, None)
         if m is None:
@@ -487,6 +548,15 @@ class Engine:
             return self.exec_block(s.body, st)
         if z3.is_false(t):
             return self.exec_block(s.orelse, st)
+        c = self.cur_contract
+        if c is not None and getattr(c, "prune_branches", False) and self.inline_depth == 0:
+            # dead-branch elimination by a small solver query (opt-in per contract): an unsatisfiable branch is not executed
+            if self.infeasible(z3.And(st.pc, t)):
+                ctx().note("dead-branch", self.where(s), "then-branch of `if %s` is unreachable" % ast.unparse(s.test)[:60])
+                return self.exec_block(s.orelse, st)
+            if self.infeasible(z3.And(st.pc, z3.Not(t))):
+                ctx().note("dead-branch", self.where(s), "else-branch of `if %s` is unreachable" % ast.unparse(s.test)[:60])
+                return self.exec_block(s.body, st)
         a = st.copy()
         a.pc = z3.And(st.pc, t)
         b = st
@@ -893,6 +963,10 @@ class Engine:
             return Val(py=("builtin", nm))
         if self.spec is not None:
             if self.func is not None and nm in self.assigned_names(self.func):
+                if self.type_spec(nm) is not None:
+                    tv = self.make_typed(ctx().fresh("unbound_" + nm), nm)
+                    if tv is not None:
+                        return tv
                 return Val.fresh("unbound_" + nm)
             raise Undecided("unknown name %r in contract expression (%s)" % (nm, self.func.qual if self.func else "?"))
         ctx().note("unbound-name", self.where(e), nm)
